@@ -126,7 +126,8 @@ func init() {
 					add(1, t, 0, 0, 5, c)
 				}
 				pairs := [][]int{{0, 1}, {1, 0}, {1, 2}, {2, 0}, {0, 2}, {2, 3}, {0, 0}, {1, 7}, {9, 7}, {3, 5}}
-				if th {
+				if th && t == 4 {
+					// every pair of classes, on the FC3-TCP target
 					pairs = nil
 					for i, a := range single {
 						for _, b := range single[i:] {
@@ -146,12 +147,12 @@ func init() {
 				for _, p := range pairs {
 					add(2, t, 0, 0, 3, p...)
 					add(2, t, 1, 1, 3, p...)
-					if th {
+					if th && t == 7 {
 						add(2, t, 0, 1, 3, p...)
 						add(2, t, 1, 2, 6, p...)
 					}
 				}
-				if th {
+				if th && t == 4 {
 					for _, cs := range [][]int{{0, 1, 2}, {1, 1, 3}, {2, 9, 0}} {
 						add(3, t, 0, 0, 3, cs...)
 						add(3, t, 1, 1, 3, cs...)
@@ -162,7 +163,7 @@ func init() {
 		},
 		Bounds: map[string]string{
 			"quick":    "1..2 fields (thorough 3; plus one nested triple String(16)/Uint16/Uint32 and same-type pairs on the same registers) on 2 servers x 2 distinct symbolic unit ids; field address = symbolic base (whole address space) + offset case-split over {0,1,3,124} (straddling the 125-register limit); the first field is on server 0/unit 0 w.l.o.g.; classes {Uint16, Int8, Bit, Uint32, Int32, Float64, Uint64, String(len 3..6)}; byte order, bit, high/low symbolic; four independent symbolic memory images of 136 registers; FC3-TCP and FC4-RTU; strict and lenient extraction; conforming device and device truncating replies by 1 register",
-			"thorough": "all four register targets; all class pairs; selected triples; truncation by 1 and 2 registers",
+			"thorough": "all four register targets; every pair of classes and three selected triples on FC3-TCP; strict extraction from a truncated reply and truncation by 2 registers on FC4-RTU",
 		},
 		Outside:   []string{"more than 2 (thorough: 3) fields, more than 2 servers / 2 unit ids per server", "offsets outside the case-split set", "the decode of a single field is C04's subject: the expected value is obtained with the same accessors over the whole memory image"},
 		MinCovers: []string{"batched", "value-compared", "strict-short", "lenient-short"},
